@@ -35,8 +35,8 @@ SHRINK_LISTS = ["threads", "switches"]
 RULE = (
     "thread runs (3 of 4): 2-4 real threads, one runnable at a time, pre-empted at pyrtcm source-line granularity by a "
     "seeded scheduler (Bernoulli per line boosted after call/return, or PCT-style change points), each thread running "
-    "1-6 operations (RTCMMessage(payload), RTCMReader.parse(frame), iterate a fresh reader over several frames, feed a "
-    "long-lived reader successive streams, str(msg)) drawn from a themed workload (same type / MSM vs MSM with different "
+    "1-6 operations (RTCMMessage(payload), RTCMReader.parse(frame), iterate a fresh reader over several frames from a "
+    "BytesIO or from its own simulated socket, feed a long-lived reader successive streams, str(msg)) drawn from a themed workload (same type / MSM vs MSM with different "
     "masks and label options / sibling types / succeeding vs failing parses of one type / mixed) over the full corpus "
     "(every defined identity, recorded real frames, unknown numbers) plus failing inputs (truncated payloads, bad CRC, "
     "garbage). history runs (1 of 4): one thread, 5-200 such operations. distinct = distinct (operations, switch "
@@ -112,6 +112,14 @@ def run_op(op):
     if kind == "iter":
         data = b"".join(bytes.fromhex(h) for h in op[1])
         rd = RTCMReader(io.BytesIO(data), validate=o["validate"], quitonerror=o["quitonerror"], labelmsm=o["labelmsm"], parsed=o["parsed"])
+        streams = [None]
+    elif kind == "sockiter":
+        # a reader over its own (simulated) socket: SocketWrapper objects in several threads
+        from ..transports import Link, RngDecider, SimSocket
+
+        data = b"".join(bytes.fromhex(h) for h in op[1])
+        link = Link(data, RngDecider(R.random.Random(o["segseed"]), {"seg": o["seg"]}), 8 * len(data) + 200)
+        rd = RTCMReader(SimSocket(link), validate=o["validate"], quitonerror=o["quitonerror"], labelmsm=o["labelmsm"], parsed=o["parsed"], bufsize=o["bufsize"])
         streams = [None]
     else:  # feed
         fs = FeedStream()
@@ -309,8 +317,11 @@ def _make_op(rng, ident_pool, fail_p, labelmsm=None):
         if rng.random() < 0.2:
             frames.append(bytes.fromhex(W.gen_nmea(rng)[1]).hex())
     o = {"validate": rng.choice((0, 1, 1)), "quitonerror": rng.choice((0, 1, 2)), "labelmsm": lm, "parsed": rng.random() < 0.9}
-    if r < 0.93:
+    if r < 0.9:
         return ["iter", frames, o]
+    if r < 0.95:
+        o = dict(o, seg=rng.choice(("byte", "small", "random", "full")), segseed=rng.getrandbits(32), bufsize=rng.choice((1, 7, 64, 4096)))
+        return ["sockiter", frames, o]
     half = max(1, len(frames) // 2)
     return ["feed", [frames[:half], frames[half:]], o]
 
@@ -537,8 +548,8 @@ def simplify(scn):
                 cand["threads"] = threads[:t] + [th[:i] + th[i + 1 :]] + threads[t + 1 :]
                 yield cand
         for i, op in enumerate(th):
-            if op[0] in ("iter", "feed"):
-                frames = op[1] if op[0] == "iter" else [f for ch in op[1] for f in ch]
+            if op[0] in ("iter", "feed", "sockiter"):
+                frames = op[1] if op[0] != "feed" else [f for ch in op[1] for f in ch]
                 for f in frames:
                     cand = dict(scn)
                     new = ["parse", f, op[2]["validate"], op[2]["labelmsm"]]
